@@ -2,6 +2,7 @@ import Lean.Data.Json
 import MC.Spec.Variant
 import MC.Model.Preproc
 import MC.Model.Prefs
+import MC.Model.PrefFiles
 import MC.Model.Nav
 import MC.Spec.Tts
 import MC.Model.Intent
@@ -87,6 +88,14 @@ def handlePrefs (op : String) (req : Json) : Option Json :=
     let (_, outs) := ops.foldl (fun (acc : MC.Prefs.PState × Array Json) o =>
       let (s', r) := prefsStep acc.1 o; (s', acc.2.push r)) (MC.Prefs.uninit, #[])
     some (okJ (Json.arr outs))
+  | "prefs_files" =>
+    -- a history of [name, value] requests from the initial state; answer: the language of the selected rule files and of the style file
+    let ops := (((req.getObjVal? "ops").toOption.getD (Json.arr #[])).getArr?.toOption.getD #[]).toList.map fun o =>
+      let a := o.getArr?.toOption.getD #[]
+      (((a[0]?.getD Json.null).getStr?).toOption.getD "", ((a[1]?.getD Json.null).getStr?).toOption.getD "")
+    let E : MC.Prefs.Env := { filesOk := fun _ _ => true, normFloat := fun x => some x }
+    let r := MC.Prefs.runOpsF E (MC.Prefs.initState, MC.Prefs.initFiles) ops
+    some <| okJ <| Json.arr #[toJson r.2.filesLang, toJson r.2.styleLang]
   | "prefs_names" =>
     let s := MC.Prefs.initState
     some <| okJ <| Json.arr <| ((s.user ++ s.api).map fun (k, v) =>
